@@ -121,11 +121,11 @@ where
     V: ExactSizeIterator<Item = T>,
 {
     let a = values.len();
-    // what `size_hint` announces must not contradict `len()` -- the number of elements the chunk then yields: `lo <= len <= hi`
-    // (the wrapper's chunk iterator keeps std's default `(0, None)`, which is imprecise but not wrong)
+    // `ExactSizeIterator`: "the implementation of `Iterator::size_hint` must return the exact size of the iterator" (std's
+    // adaptors compute their own `len()` from it: `chunk.values.take(2).len()` asserts `upper == Some(lower)`)
     let hint_ok = |v: &V| {
         let (lo, hi) = v.size_hint();
-        if lo > v.len() || hi.map_or(false, |h| h < v.len()) {
+        if lo != v.len() || hi != Some(v.len()) {
             tlog!("hint-mismatch size_hint=({}, {:?}) len={}", lo, hi, v.len());
         }
     };
